@@ -10,6 +10,7 @@ import (
 //verif:witness H_C19_others end
 //verif:bound C19 quick rolling appender, one writer, 1..3 writes under arbitrary non-decreasing clock readings (interval 1 s / 10 min); every OpenFile after Start and every Write may fail (fault bit per call, path-split)
 //verif:bound C19 thorough 1..5 writes, otherwise as quick
+//verif:bound C19 all other appenders: file appender whose Start failed / whose file is closed; console stream that fails, makes no progress or writes short; rolling appender on a missing directory; file and rolling-file appender on a target that opens but rejects every write (full disk): the calls return, nothing panics
 //verif:assume C19 a failing OpenFile returns (nil, error), a failing Write returns an error and writes nothing (os.File contract); faults of the directory listing/removal are not modelled
 //verif:engine-only H_C19_rolling
 //verif:engine-only H_C19_others
@@ -97,7 +98,22 @@ func H_C19_others() {
 	dir := root + "/logs"
 	e := &Event{Level: InfoLevel, Time: vFixedTime, File: "f.go", Line: 1, Tag: "_t_x", Fields: []Field{Msg("m")}}
 	lay := &TextLayout{BaseLayout{FileLineLength: 48}}
-	switch vChoose("case", 4) {
+	switch vChoose("case", 6) {
+	case 4, 5: // a target that opens but rejects every write (full disk): file and rolling-file appender
+		vFSMkdir(dir)
+		var app Appender = &FileAppender{Layout: lay, FileDir: dir, FileName: "f.log"}
+		if vChoose("rolling", 2) == 1 {
+			app = &RollingFileAppender{Layout: lay, FileDir: dir, FileName: "r", Rotation: TimeRotation{Interval: time.Second}, MaxAge: 1}
+		}
+		if err := app.Start(); err != nil {
+			panic(err)
+		}
+		vFaults(0, 2)
+		app.Append(e) // must return (an endless retry is the outcome DIVERGE)
+		app.Write([]byte("x"))
+		vFaults(0, 0)
+		app.Stop()
+		vAssert(vFSOpenFDs() == 0, "no-descriptor-left-open")
 	case 0: // missing directory: Start fails, later use must not panic
 		fa := &FileAppender{Layout: lay, FileDir: dir, FileName: "f.log"}
 		err := fa.Start()
